@@ -277,6 +277,7 @@ class C17Prop(Prop):
         for op in ref_scn["history"]:
             if "cwd" in op:
                 op["cwd"] = ""
+            op.pop("via_symlink", None)
         ref = runner.execute(ref_scn, seed, plans, keep=True)
         try:
             run = runner.execute(scn, seed, plans, keep=True)
